@@ -40,7 +40,9 @@ pub fn check(cx: &Cx, rep: &mut Report) {
         if af.is_child || decl.k != 0 || af.failed() {
             continue;
         }
-        let end = af.task_end.map(|e| e.0).unwrap_or(u64::MAX);
+        // (L2 has no task-end events: once the final stopped() has returned, handles that sit inside pending awaits are
+        // released at moments the harness cannot order against other threads' operations)
+        let end = af.task_end.map(|e| e.0).unwrap_or(if cx.mt { af.t_final().and_then(|t| t.1).unwrap_or(u64::MAX) } else { u64::MAX });
         // R1/R2: ctx.stop / ctx.restart inside a handler succeed while any strong handle exists
         for e in ix.ev {
             if let K::Effect { actor, what, ok, msg, .. } = &e.k {
